@@ -46,12 +46,16 @@ type Case struct {
 	// round 6
 	View map[string]VW `json:"view,omitempty"` // operands / in-situ buffers that are views of a larger workspace (views.go)
 	Scale int          `json:"scale,omitempty"` // generator note: the entries were scaled by 2^Scale (determinant out of the float range)
+	// round 7
+	AliasX bool `json:"aliasx,omitempty"` // backSubstitution: InSitu.X is the right-hand side b itself (solve in place)
+	AliasA bool `json:"aliasa,omitempty"` // backSubstitution: InSitu.A is the matrix argument itself
 }
 
 type Result struct {
 	Kind string // ok errsingular panicsingular errnotpd errperm panicindex other:...
 	A, X [][]float64
 	B    []float64
+	BAfter []float64 // backSubstitution: the right-hand side read after the call
 	V    float64
 	WS   []WSDump // view cases: every workspace before / after the call
 }
@@ -227,10 +231,20 @@ func execOne(c Case, ses *session) (res Result) {
 		}
 		var x ad.Vector
 		var err error
-		if c.InSituA || c.InSitu || c.Reuse {
+		aliasX := c.AliasX && b != nil
+		if c.InSituA || c.InSitu || c.Reuse || aliasX || c.AliasA {
 			is := ses.bsBufs(c)
 			if _, ok := c.View["bufa"]; ok {
 				is.A = ws.operand(c, "bufa", dirty(n))
+			} else if c.AliasA {
+				cp := *is // never store the aliases in a shared struct
+				is = &cp
+				is.A = a
+			}
+			if aliasX {
+				cp := *is
+				is = &cp
+				is.X = b
 			}
 			ws.before()
 			x, err = backSubstitution.Run(a, b, is)
@@ -244,7 +258,14 @@ func execOne(c Case, ses *session) (res Result) {
 		if fmt.Sprint(rowsOf(a)) != fmt.Sprint(in.A) {
 			return Result{Kind: "other:input-modified"}
 		}
-		return Result{Kind: "ok", B: vecOf(x)}
+		var bafter []float64
+		if b != nil {
+			bafter = vecOf(b)
+			if !aliasX && fmt.Sprint(bafter) != fmt.Sprint(in.B) {
+				return Result{Kind: "other:rhs-modified"}
+			}
+		}
+		return Result{Kind: "ok", B: vecOf(x), BAfter: bafter}
 	case "Det":
 		dm := ws.operand(c, "m", c.A)
 		ws.before()
@@ -409,7 +430,15 @@ func coqCases(c Case, r Result, w *CaseWriter) []string {
 		if r.Kind != "ok" {
 			r.B = []float64{}
 		}
-		out = append(out, fmt.Sprintf("KBS2 %d %s %s %s %s", n, fm(c.A), B(c.HasB), FList(c.B), FList(r.B)))
+		if c.AliasX && c.HasB {
+			if r.Kind != "ok" {
+				r.BAfter = []float64{}
+			}
+			out = append(out, fmt.Sprintf("KBSal %d %d %s %s %s %s %s", etCode(c.et()), n, fm(c.A), B(c.AliasA), FList(c.B), FList(r.B), FList(r.BAfter)))
+			w.Count("backsub:x-aliases-b")
+		} else {
+			out = append(out, fmt.Sprintf("KBS2 %d %s %s %s %s", n, fm(c.A), B(c.HasB), FList(c.B), FList(r.B)))
+		}
 		if r.Kind == "ok" && c.HasB && c.Tag != "garbage" && finiteM([][]float64{r.B}) {
 			na := normInf(c.A, allTrue(n))
 			mx := 1.0
@@ -476,7 +505,15 @@ func coqCasesTyped(c Case, r Result, w *CaseWriter) []string {
 		if r.Kind != "ok" {
 			r.B = []float64{}
 		}
-		out = append(out, fmt.Sprintf("KTBS %d %d %s %s %s %s", et, n, fm(c.A), B(c.HasB), FList(c.B), FList(r.B)))
+		if c.AliasX && c.HasB {
+			if r.Kind != "ok" {
+				r.BAfter = []float64{}
+			}
+			out = append(out, fmt.Sprintf("KBSal %d %d %s %s %s %s %s", et, n, fm(c.A), B(c.AliasA), FList(c.B), FList(r.B), FList(r.BAfter)))
+			w.Count("backsub:x-aliases-b")
+		} else {
+			out = append(out, fmt.Sprintf("KTBS %d %d %s %s %s %s", et, n, fm(c.A), B(c.HasB), FList(c.B), FList(r.B)))
+		}
 		if r.Kind == "ok" && c.HasB && finiteM([][]float64{r.B}) {
 			na, mx := normInf(in.A, allTrue(n)), 1.0
 			for _, v := range r.B {
@@ -773,6 +810,8 @@ func genCase(r *Rng) Case {
 		c.B = randVec(r, n)
 		c.InSitu = r.Intn(100) < 30
 		c.InSituA = r.Intn(100) < 35
+		c.AliasX = r.Intn(100) < 40
+		c.AliasA = r.Intn(100) < 20
 	case 3:
 		c.Kind = "Det"
 		c.Msk, c.MskNil = allTrue(n), true
@@ -843,6 +882,74 @@ func permStream(tier string) []Case {
 				s := Case{Kind: "GJ", N: n, A: a, X: identity(n), B: baseMat(n)[0], Dense: k%2 == 0, Msk: allTrue(n), Tag: "rowperm"}
 				cs = append(cs, s)
 			}
+		}
+	}
+	return cs
+}
+
+// round 7 — enumeration stream for exact-zero / tie corner cases: EVERY 2x2 matrix with entries in {-1,0,1} and a
+// deterministic sample of the 3x3 ones (entries -1..1: nearly every pivot column has a tie in absolute value, many
+// multipliers, products and partial sums are exactly zero), right-hand sides and x operands with exact zeros in
+// every position pattern, both paths (DenseFloat64 fast path / generic), gaussJordan.Run and matrixInverse.Run;
+// plus in-place back substitution on small integer triangular systems with zeros in b
+func tieStream(r *Rng, n3 int) []Case {
+	var cs []Case
+	bpat2 := [][]float64{{0, 0}, {0, 1}, {1, 0}, {2, -1}, {0, -3}, {5, 0}}
+	xs2 := [][][]float64{identity(2), {{0, 1}, {1, 0}}, {{0, 0}, {0, 2}}, {{1, 2}, {0, 0}}}
+	k := 0
+	for code := 0; code < 81; code++ {
+		a := make([][]float64, 2)
+		v := code
+		for i := range a {
+			a[i] = make([]float64, 2)
+			for j := range a[i] {
+				a[i][j] = float64(v%3 - 1)
+				v /= 3
+			}
+		}
+		for t := 0; t < 2; t++ {
+			c := Case{Kind: "GJ", N: 2, A: cloneM(a), X: cloneM(xs2[k%len(xs2)]), B: append([]float64{}, bpat2[k%len(bpat2)]...),
+				Dense: k%2 == 0, Msk: allTrue(2), MskNil: k%3 == 0, Tag: "tie-enum"}
+			cs = append(cs, c)
+			k++
+		}
+	}
+	for q := 0; q < n3; q++ {
+		a := intMat(r, 3, 1, 0)
+		if q%4 == 3 {
+			a = intMat(r, 3, 2, 30)
+		}
+		b := make([]float64, 3)
+		for i := range b {
+			b[i] = []float64{0, 0, 1, -2, 3}[r.Intn(5)]
+		}
+		x := identity(3)
+		if q%3 == 1 {
+			x = intMat(r, 3, 2, 50)
+		}
+		c := Case{Kind: "GJ", N: 3, A: a, X: x, B: b, Dense: q%2 == 0, Msk: allTrue(3), MskNil: q%5 == 0, Tag: "tie-enum"}
+		if q%7 == 6 {
+			c.Msk, c.MskNil = []bool{true, q%2 == 0, true}, false
+		}
+		cs = append(cs, c)
+		if q%4 == 0 {
+			cs = append(cs, Case{Kind: "Inv", N: 3, A: cloneM(a), Dense: q%8 == 0, Msk: allTrue(3), MskNil: true, Tag: "tie-enum"})
+		}
+		if q%3 == 0 {
+			n := 2 + q%3
+			tm := intMat(r, n, 2, 30)
+			for i := range tm {
+				for j := 0; j < i; j++ {
+					tm[i][j] = 0
+				}
+				tm[i][i] = nz(r, 2)
+			}
+			bb := make([]float64, n)
+			for i := range bb {
+				bb[i] = []float64{0, 0, 1, -2, 3}[r.Intn(5)]
+			}
+			cs = append(cs, Case{Kind: "BS", N: n, A: tm, HasB: true, B: bb, Dense: q%2 == 0, Msk: allTrue(n), MskNil: true,
+				AliasX: true, AliasA: q%6 == 0, Tag: "tie-enum"})
 		}
 	}
 	return cs
@@ -1022,7 +1129,7 @@ func main() {
 	}
 	w := NewCaseWriter(o.Out, "cases", header, "mism", 24)
 	w.Type = "kase"
-	w.Rule = "gaussJordan.Run / matrixInverse.Run (plain, UpperTriangular, PositiveDefinite; Submatrix masks; caller-supplied dirty InSitu buffers) / backSubstitution.Run / determinant.Run (naive, PositiveDefinite) / Permute* on DenseFloat64 and DenseReal64 containers, n = 1..8; plus HISTORIES (typed cases): sequences of 4-5 calls in one process over Float32/Float64/Real32/Real64 containers (Float32 -> Float64 -> Real64 -> Float32 ... with one routine and one size; mixed routines; one InSitu struct shared by all calls), random entries not representable in binary32, every call compared with the model as if it were the first; a typed case is non-trivial iff its history contains a call of another element type or shares the InSitu struct; inputs: integer-valued, entries -3..3, upper triangular, SPD, 50% zeros, dyadic, random floats, structurally singular (zero row/column, identical rows, dependent rows), EVERY row permutation of fixed matrices n <= 5; a replay case is non-trivial iff n >= 3, the routine returned a result and (for the pivoting routines) the first selected column needs a row interchange; residual cases (KRes/KResV) are counted separately; round 6: VIEW cases (input:view) - operands a, x of gaussJordan.Run, the matrix argument and InSitu.A / InSitu.Id of matrixInverse.Run (all modes), A and InSitu.A of backSubstitution.Run, the argument of determinant.Run are views of larger workspaces (chains of Slice with row AND column offsets / T / Slice of Slice, two disjoint views of ONE workspace), all four element types, n = 2..5, matrices whose partial pivoting interchanges rows in nearly every column; per case the logical result is compared with the model as usual, every workspace is compared WHOLE (KVW: after = vstore before view result, Slice / T / index from C10.Gen) and gaussJordan on two views with the element-level view model (KVGJ); a view case is non-trivial iff the routine returned a result and some view has a non-zero row and column offset; SCALED determinants (input:scaled-det): SPD matrices times 2^s with |log2 det| beyond the range of the element type (product form), beyond TWICE the range (LogScale: the product of the Cholesky diagonal overflows / underflows), and large but in range (both forms, cofactor expansion)"
+	w.Rule = "gaussJordan.Run / matrixInverse.Run (plain, UpperTriangular, PositiveDefinite; Submatrix masks; caller-supplied dirty InSitu buffers) / backSubstitution.Run / determinant.Run (naive, PositiveDefinite) / Permute* on DenseFloat64 and DenseReal64 containers, n = 1..8; plus HISTORIES (typed cases): sequences of 4-5 calls in one process over Float32/Float64/Real32/Real64 containers (Float32 -> Float64 -> Real64 -> Float32 ... with one routine and one size; mixed routines; one InSitu struct shared by all calls), random entries not representable in binary32, every call compared with the model as if it were the first; a typed case is non-trivial iff its history contains a call of another element type or shares the InSitu struct; inputs: integer-valued, entries -3..3, upper triangular, SPD, 50% zeros, dyadic, random floats, structurally singular (zero row/column, identical rows, dependent rows), EVERY row permutation of fixed matrices n <= 5; a replay case is non-trivial iff n >= 3, the routine returned a result and (for the pivoting routines) the first selected column needs a row interchange; residual cases (KRes/KResV) are counted separately; round 6: VIEW cases (input:view) - operands a, x of gaussJordan.Run, the matrix argument and InSitu.A / InSitu.Id of matrixInverse.Run (all modes), A and InSitu.A of backSubstitution.Run, the argument of determinant.Run are views of larger workspaces (chains of Slice with row AND column offsets / T / Slice of Slice, two disjoint views of ONE workspace), all four element types, n = 2..5, matrices whose partial pivoting interchanges rows in nearly every column; per case the logical result is compared with the model as usual, every workspace is compared WHOLE (KVW: after = vstore before view result, Slice / T / index from C10.Gen) and gaussJordan on two views with the element-level view model (KVGJ); a view case is non-trivial iff the routine returned a result and some view has a non-zero row and column offset; SCALED determinants (input:scaled-det): SPD matrices times 2^s with |log2 det| beyond the range of the element type (product form), beyond TWICE the range (LogScale: the product of the Cholesky diagonal overflows / underflows), and large but in range (both forms, cofactor expansion); round 7: IN-PLACE back substitution (backsub:x-aliases-b) - InSitu.X is the right-hand side itself (and InSitu.A the matrix itself or a dirty buffer), all element types, also on views and inside histories: returned vector AND b after the call compared with the single-buffer model backsub_alias_run; out-of-place calls check that b is unchanged; TIE ENUMERATION (input:tie-enum) - every 2x2 matrix with entries -1..1 and a sample of the 3x3 ones (ties in nearly every pivot column, exactly-zero multipliers / products / partial sums), right-hand sides and x operands with exact zeros in every position, both paths, gaussJordan.Run / matrixInverse.Run / in-place backSubstitution.Run"
 	for _, c := range readCorpus(o.Extra) {
 		c.Tag = "corpus:" + c.Tag
 		addCase(w, c)
@@ -1066,6 +1173,14 @@ func main() {
 		addCase(w, c)
 	}
 	for _, c := range scaledDetStream(NewRng(o.Seed+224737), o.N/6) {
+		addCase(w, c)
+	}
+	// round 7: exact-zero / tie enumeration (small integer matrices, right-hand sides with exact zeros, in-place solves)
+	n3 := o.N / 2
+	if n3 > 600 {
+		n3 = 600
+	}
+	for _, c := range tieStream(NewRng(o.Seed+90017), n3) {
 		addCase(w, c)
 	}
 	if err := w.Flush(); err != nil {
